@@ -2442,6 +2442,14 @@ SDIgetcoordvar(NC     *handle, /* IN: file handle */
                     (*dp)->var_type == UNKNOWN) {
                     /* see if we need to change the number type */
                     if ((nt != 0) && (nt != (*dp)->type)) {
+                        /* the values of a fixed-size coordinate variable that have
+                           already been stored live in an element of fixed length:
+                           a wider type would not fit.  Refuse before anything is
+                           changed, so that the stored scale stays readable */
+                        if ((*dp)->data_ref != 0 && !IS_RECVAR(*dp) && DFKNTsize(nt) > (*dp)->HDFsize) {
+                            HGOTO_ERROR(DFE_ARGS, FAIL);
+                        }
+
                         if (((*dp)->type = hdf_unmap_type((int)nt)) == FAIL) {
                             HGOTO_ERROR(DFE_INTERNAL, FAIL);
                         }
